@@ -152,3 +152,277 @@ _install0 = install
 def install(lib):  # noqa: F811
     _install0(lib)
     _av_install(lib)
+
+
+# ---------------------------------------------------------------------------- asyncio streams (A-STREAM) and bytes
+
+first_line = z3.Function("first_line", BytesS, BytesS)  # shortest prefix of the unread bytes ending in the terminator
+after_line = z3.Function("after_line", BytesS, BytesS)  # the unread bytes after that prefix
+has_line = z3.Function("has_line", BytesS, BoolS)  # the unread bytes contain a terminator
+bcat = z3.Function("bcat", BytesS, BytesS, BytesS)  # concatenation of byte strings
+
+STREAM_GHOST = {"ghost.inb": BytesS, "ghost.outb": BytesS, "ghost.closed": BoolS}
+
+
+def _exc(I, name, site=None, **attrs):
+    e = I.make_exc(name, site=site)
+    e.attrs.update(attrs)
+    return e
+
+
+def _streams_install(lib):
+    def coro(fn):
+        return CoroVal(None, [], {}, runner=fn)
+
+    def reader_attr(I, o, name, fr, node):
+        if name == "readuntil":
+            def readuntil(I2, a, k):
+                def run(I3):
+                    c = I3.c
+                    inb = c.heap.get("ghost.inb", BytesS)
+                    # outcomes of A-STREAM: I/O error, over-long line, EOF mid-line, or the next line
+                    o_ = c.choose([c.fresh("io_error", BoolS), c.fresh("overrun", BoolS)], "readuntil")
+                    if o_ == 0:
+                        raise RaiseSig(_exc(I3, "OSError", node))
+                    if o_ == 1:
+                        raise RaiseSig(_exc(I3, "LimitOverrunError", node))
+                    if not c.branch(has_line(inb), "line-available"):
+                        raise RaiseSig(_exc(I3, "IncompleteReadError", node, partial=Sym(inb, "bytes")))
+                    c.heap.set("ghost.inb", after_line(inb))
+                    return Sym(first_line(inb), "bytes")
+                return coro(run)
+            return Builtin("StreamReader.readuntil", readuntil)
+        return MISSING
+
+    def writer_attr(I, o, name, fr, node):
+        def may_fail(label):
+            def f(I2, a, k):
+                def run(I3):
+                    if I3.c.branch(I3.c.fresh(label + "_fails", BoolS), label):
+                        raise RaiseSig(_exc(I3, "OSError", node))
+                    return None
+                return coro(run)
+            return f
+        if name == "write":
+            def write(I2, a, k):
+                b = a[0]
+                if isinstance(b, LibObj) and b.kind == "pybytes_sym":
+                    t = b.term
+                elif is_sym_bytes(b):
+                    t = b.term
+                else:
+                    raise Unsupported("writer.write of a non-bytes value")
+                out = I2.c.heap.get("ghost.outb", BytesS)
+                I2.c.heap.set("ghost.outb", bcat(out, t))
+                return None
+            return Builtin("StreamWriter.write", write)
+        if name == "drain":
+            return Builtin("StreamWriter.drain", may_fail("drain"))
+        if name == "wait_closed":
+            return Builtin("StreamWriter.wait_closed", may_fail("wait_closed"))
+        if name == "close":
+            def close(I2, a, k):
+                if I2.c.branch(I2.c.fresh("close_fails", BoolS), "close"):
+                    raise RaiseSig(_exc(I2, "OSError", node))
+                I2.c.heap.set("ghost.closed", z3.BoolVal(True))
+                return None
+            return Builtin("StreamWriter.close", close)
+        return MISSING
+
+    lib.opaque_attrs["StreamReader"] = reader_attr
+    lib.opaque_attrs["StreamWriter"] = writer_attr
+
+    def open_conn(I, a, k, fr, n):
+        def run(I3):
+            if I3.c.branch(I3.c.fresh("open_fails", BoolS), "open-connection"):
+                raise RaiseSig(_exc(I3, "OSError", n))
+            r = I3.alloc(TOpaque("StreamReader"))
+            w = I3.alloc(TOpaque("StreamWriter"))
+            return (r, w)
+        return coro(run)
+    lib.ext_calls["asyncio.open_connection"] = open_conn
+    lib.ext_calls["serial_asyncio.open_serial_connection"] = open_conn
+
+    # bytes.decode() of a symbolic byte string
+    def sym_attr(I, v, name, fr, node):
+        if v.kind == "bytes" and name == "decode":
+            def decode(I2, a, k):
+                if not I2.c.branch(L.utf8_ok(v.term), "utf8-ok"):
+                    raise RaiseSig(_exc(I2, "UnicodeDecodeError", node))
+                return Sym(L.utf8_dec(v.term), "str")
+            return Builtin("bytes.decode", decode)
+        return MISSING
+    lib.sym_attr = sym_attr
+
+
+def is_sym_bytes(v):
+    return isinstance(v, Sym) and v.kind == "bytes"
+
+
+_install1 = install
+
+
+def install(lib):  # noqa: F811
+    _install1(lib)
+    _streams_install(lib)
+
+
+# ---------------------------------------------------------------------------- asyncio queue/tasks, aiomqtt client (A-AIO, A-MQTT)
+
+exc_is_transport_error = z3.Function("exc_is_transport_error", Ref, BoolS)  # class of a stored exception object
+
+
+def _mqtt_install(lib):
+    def coro(fn):
+        return CoroVal(None, [], {}, runner=fn)
+
+    def g(I, name):
+        return I.c.heap.get(name, I.w.ghost_sorts[name])
+
+    # ---- asyncio.Queue: FIFO log (qlen = number put, qhead = number taken, qat = the items)
+    lib.ext_calls["asyncio.Queue"] = lambda I, a, k, fr, n: I.alloc(TOpaque("Queue"))
+
+    def queue_attr(I, o, name, fr, node):
+        if name == "put_nowait":
+            def put(I2, a, k):
+                item = a[0]
+                ql = g(I2, "ghost.qlen")
+                I2.c.heap.set("ghost.qat", z3.Store(g(I2, "ghost.qat"), ql, item.ref))
+                I2.c.heap.set("ghost.qlen", ql + 1)
+                return None
+            return Builtin("Queue.put_nowait", put)
+        if name == "get":
+            def get(I2, a, k):
+                def run(I3):
+                    ql, qh = g(I3, "ghost.qlen"), g(I3, "ghost.qhead")
+                    if not I3.c.branch(qh < ql, "queue-nonempty"):
+                        raise PathEnd("blocked")  # get() on an empty queue waits; nothing is observed
+                    item = z3.Select(g(I3, "ghost.qat"), qh)
+                    I3.c.heap.set("ghost.qhead", qh + 1)
+                    I3.c.assume(z3.Select(I3.alive(), item))
+                    return Obj(item, TObj("ReceivedMessage"))
+                return coro(run)
+            return Builtin("Queue.get", get)
+        if name == "task_done":
+            return Builtin("Queue.task_done", lambda I2, a, k: None)
+        return MISSING
+    lib.opaque_attrs["Queue"] = queue_attr
+
+    # ---- tasks
+    def create_task(I, a, k, fr, n):
+        t = I.alloc(TOpaque("Task"))
+        I.c.heap.set("ghost.tasks", g(I, "ghost.tasks") + 1)
+        return t
+    lib.ext_calls["asyncio.create_task"] = create_task
+
+    def task_attr(I, o, name, fr, node):
+        if name == "cancel":
+            return Builtin("Task.cancel", lambda I2, a, k: True)
+        return MISSING
+    lib.opaque_attrs["Task"] = task_attr
+
+    def await_task(I, v, fr, node):
+        # A-AIO: this code awaits a task only right after cancelling it, and the task bodies do not catch
+        # CancelledError: the awaiter gets CancelledError; the task is finished afterwards.
+        I.c.heap.set("ghost.tasks", g(I, "ghost.tasks") - 1)
+        raise RaiseSig(_exc(I, "CancelledError", node))
+    lib.await_opaque = {"Task": await_task}
+
+    def gather(I, a, k, fr, n):
+        def run(I3):
+            for cv in a:  # A-AIO: all are run; the first exception propagates (sequential order is one legal schedule)
+                I3.do_await(cv, fr, n)
+            return None
+        return coro(run)
+    lib.ext_calls["asyncio.gather"] = gather
+
+    # ---- contextlib.suppress
+    def suppress(I, a, k, fr, n):
+        cm = LibObj("suppress", classes=tuple(a))
+        cm.enter = lambda I2, fr2, n2: None
+        cm.exit = lambda I2, exc, fr2, n2: exc is not None and I2.exc_matches(exc, cm.classes)
+        return cm
+    lib.ext_calls["contextlib.suppress"] = suppress
+
+    # ---- aiomqtt client
+    lib.ext_calls["aiomqtt.Client"] = lambda I, a, k, fr, n: I.alloc(TOpaque("AsyncioClient"))
+
+    def client_attr(I, o, name, fr, node):
+        def failing(label):
+            def f(I2, a, k):
+                def run(I3):
+                    if I3.c.branch(I3.c.fresh(label + "_fails", BoolS), label):
+                        raise RaiseSig(_exc(I3, "MqttError", node))
+                    return None
+                return coro(run)
+            return f
+        if name in ("__aenter__", "__aexit__"):
+            return Builtin(f"Client.{name}", failing(name))
+        if name == "publish":
+            def publish(I2, a, k):
+                def run(I3):
+                    if I3.c.branch(I3.c.fresh("publish_fails", BoolS), "publish"):
+                        raise RaiseSig(_exc(I3, "MqttError", node))
+                    pl = g(I3, "ghost.plen")
+                    I3.c.heap.set("ghost.ptopic", z3.Store(g(I3, "ghost.ptopic"), pl, I3.to_term(a[0], TStr)))
+                    has = "payload" in k
+                    I3.c.heap.set("ghost.ppayload", z3.Store(g(I3, "ghost.ppayload"), pl, I3.to_term(k["payload"], TStr) if has else z3.StringVal("")))
+                    I3.c.heap.set("ghost.pqos", z3.Store(g(I3, "ghost.pqos"), pl, I3.to_term(k.get("qos", 0), TInt)))
+                    I3.c.heap.set("ghost.plen", pl + 1)
+                    return None
+                return coro(run)
+            return Builtin("Client.publish", publish)
+        if name == "subscribe":
+            def subscribe(I2, a, k):
+                def run(I3):
+                    if I3.c.branch(I3.c.fresh("subscribe_fails", BoolS), "subscribe"):
+                        raise RaiseSig(_exc(I3, "MqttError", node))
+                    sl = g(I3, "ghost.slen")
+                    I3.c.heap.set("ghost.stopic", z3.Store(g(I3, "ghost.stopic"), sl, I3.to_term(a[0], TStr)))
+                    I3.c.heap.set("ghost.sqos", z3.Store(g(I3, "ghost.sqos"), sl, I3.to_term(k.get("qos", 0), TInt)))
+                    I3.c.heap.set("ghost.slen", sl + 1)
+                    return None
+                return coro(run)
+            return Builtin("Client.subscribe", subscribe)
+        if name == "messages":
+            it = LibObj("mqtt_messages")
+
+            def async_for(I2, s, fr2):
+                # A-MQTT: the message iterator never ends; each step yields a broker message, raises MqttError,
+                # or (the task being cancelled while it waits) raises CancelledError.
+                c = I2.c
+                o_ = c.choose([c.fresh("broker_error", BoolS), c.fresh("cancelled", BoolS)], "messages")
+                if o_ == 0:
+                    raise RaiseSig(_exc(I2, "MqttError", s))
+                if o_ == 1:
+                    raise RaiseSig(_exc(I2, "CancelledError", s))
+                msg = LibObj("mqtt_message", payload=Sym(c.fresh("mqtt_payload", BytesS), "bytes"), topic=Sym(c.fresh("mqtt_topic", StrS), "str"))
+
+                def mattr(I3, nm, fr3, n3):
+                    if nm == "payload":
+                        return msg.payload
+                    if nm == "topic":
+                        t = LibObj("mqtt_topic")
+                        t.attr = lambda I4, nm4, fr4, n4: msg.topic if nm4 == "value" else MISSING
+                        return t
+                    return MISSING
+                msg.attr = mattr
+                I2.last_mqtt_message = msg
+                I2.assign(s.target, msg, fr2)
+                try:
+                    I2.block(s.body, fr2)
+                except ContinueSig:
+                    pass
+                raise PathEnd("loop-back")
+            it.async_for = async_for
+            return it
+        return MISSING
+    lib.opaque_attrs["AsyncioClient"] = client_attr
+
+
+_install2 = install
+
+
+def install(lib):  # noqa: F811
+    _install2(lib)
+    _mqtt_install(lib)
